@@ -3,7 +3,7 @@ natives through their real registration on symbolic operands, XSequence::len/get
 from . import kcrate
 
 OUT = [
-    "Map and Zip representations (need user functions), slice/chain compositions beyond the harnesses, prelude functions "
+    "every representation behind Rc<dyn XNativeValue> (Map, Zip, Chain, Slice and the natives push/insert/pop/get that receive sequences as values: not explorable by CBMC, DESIGN 9.2), prelude functions "
     "(reverse, repeat, combinations...), sort (C19), sequences longer than 3 elements",
     "range steps outside the constant table {1, 2, 7, -1, -3, i64::MAX} (symbolic divisors do not finish)",
 ]
